@@ -41,5 +41,17 @@ def run(ctx):
 
 
 def replay(rep):
-    print("deterministic enumeration; re-run bin/check C20. failing history:", rep["replay"])
-    return 0
+    """Apply the recorded registration history in a fresh process and probe."""
+    import subprocess
+    h = rep["replay"].get("history", "")
+    exe = vlib.build_engine("xreg", "plain")
+    scratch = vlib.scratch_dir("C20r")
+    bad = []
+    for tier in ("quick", "thorough"):
+        p = subprocess.run([exe, "--tier", tier, "--only-history", h], stdout=subprocess.PIPE, env=vlib.scrub_env(scratch=scratch), timeout=1200)
+        bad = [l for l in p.stdout.decode().splitlines() if '"t":"viol"' in l]
+        if bad or '"histories":1' in p.stdout.decode():
+            break
+    shutil.rmtree(scratch, ignore_errors=True)
+    print("\n".join(b[:500] for b in bad[:5]) if bad else "replayed without violation")
+    return 1 if bad else 0
